@@ -19,6 +19,20 @@ Monitors
   structure        (W) flatten_to_unit, reshape, __getitem__, __iter__, __len__,
                    stacking Class([objs...]) preserve the units and their order.
 
+Input classes added in round 3 (each is one family of realistic regressions):
+  layouts          the same composite handed over Fortran-ordered / as a
+                   transposed, axis-permuted, strided or reversed view: all
+                   structure checks + apply (monitor structure, keys
+                   .../memory-layout).
+  generic-ranks    ProjectiveObject / HyperbolicObject / PointCollection /
+                   PointPair whose unit, auxiliary, dual ranks are set per
+                   instance, through apply in the three modes (monitor
+                   apply-modes, keys apply-modes/generic/...).
+  special-units    composites of ordinary points with 1..2 exactly lightlike
+                   units / exact origins / exactly coincident pairs: the
+                   ordinary units must get what they get alone (monitor
+                   per-index, operation names carry {class}).
+
 The axis order for pairwise is the one the property fixes (object axes first);
 the repository's two baseline-failing tests assume the opposite.
 """
@@ -30,6 +44,7 @@ from .. import attach
 from ..ref import hyp as rh
 from ..ref import proj as rp
 from ..gen import projobjs as G
+from ..gen import c04extra as GX
 
 ID = "C04"
 RULE = ("cases = (operation, object class, dimension 1..4, object composite shape "
@@ -38,7 +53,11 @@ RULE = ("cases = (operation, object class, dimension 1..4, object composite shap
         "operation on the unit rebuilt from the raw inputs at that index; "
         "non-trivial = composite with >= 2 units or a size-1/broadcast axis; "
         "distinct = distinct (operation, class, dimension, shapes, mode) signatures "
-        "and distinct matrix_product call signatures (unit ranks, outer ranks, mode)")
+        "and distinct matrix_product call signatures (unit ranks, outer ranks, mode); "
+        "plus: the same composites in 6 non-C memory layouts (2 construction routes); "
+        "generic objects with per-instance (unit, aux, dual) ranks in "
+        "{(1..3,0,0),(2,2,0),(2,3,1),(1,2,2),(3,1,0)} through apply in the three modes; "
+        "point composites with 1..2 exactly lightlike / exact-origin / coincident units")
 ASSUMPTIONS = [
     "pairwise axis order is the property's: object axes first, then "
     "transformation axes; entry [i][j] = transformation j applied to unit i",
@@ -51,6 +70,13 @@ ASSUMPTIONS = [
     "Polygon.circle_parameters is not exercised (its signature mismatch is "
     "outside the property; DESIGN.md section 6)",
     "ConvexPolygon is excluded (constructor re-orders vertices)",
+    "in composites with exactly lightlike units or exactly coincident pairs, "
+    "metric operations (distance, origin_to, tangent vectors) are judged on the "
+    "ordinary units only; tangent vectors based at a degenerate unit are not "
+    "pushed through point_along / isometry_to / origin_to (undefined there)",
+    "generic objects with per-instance ranks are judged through apply and "
+    "flatten_to_unit only (reshape / __getitem__ / stacking of such objects go "
+    "through the class constructor, whose rank arguments are the caller's)",
 ]
 ANCHORS = [
     ("geometry_tools/utils/core.py", "matrix_product"),
@@ -393,14 +419,36 @@ def wl_points(run, rng, idx):
             Q = rh.klein_to_proj(rh.rand_sphere(rng, n, shape) * rQ)
             if n >= 2 or np.all(np.abs(rh.proj_to_klein(P) - rh.proj_to_klein(Q)) > 1e-9):
                 break
-    tangent_ok = bool(np.all(rp.klein_sep(P, Q) > 1e-2)) and pcls != "near-origin"
+    _points_case(run, rng, idx, n, shape, P, Q, pcls)
+
+
+def _points_case(run, rng, idx, n, shape, P, Q, pcls, special=None, optag="",
+                 tangent_domain=True):
+    """the per-index comparison of every vectorised point operation.
+
+    special: boolean mask over `shape` of units that are degenerate for the
+    metric operations (exactly lightlike, exactly coincident pair): their
+    coordinates are still compared, everything else is judged on the other
+    (ordinary) units only -- which must give what they give alone.
+    tangent_domain=False: the base points contain degenerate units, so tangent
+    vectors there are undefined and only their construction is compared.
+    optag: input-class suffix of the operation names (mechanism keys)."""
+    from geometry_tools import hyperbolic as H
+    if special is None:
+        special = np.zeros(shape, dtype=bool)
+    has_special = bool(np.any(special))
+    ordinary = ~special
+    tangent_ok = bool(np.all(rp.klein_sep(P, Q)[ordinary] > 1e-2)) and pcls != "near-origin"
     # conditioning of everything built from isometries at these points: their
     # entries grow like 1/(1-r^2); earlier queries renormalise the composite's
     # data in place (1 ulp), which this factor amplifies
     with np.errstate(all="ignore"):
-        kappa = float(max(np.max(1.0 / (1.0 - np.sum(rh.proj_to_klein(P) ** 2, axis=-1))),
-                          np.max(1.0 / (1.0 - np.sum(rh.proj_to_klein(Q) ** 2, axis=-1))), 1.0))
+        kP = 1.0 / (1.0 - np.sum(rh.proj_to_klein(P) ** 2, axis=-1))
+        kQ = 1.0 / (1.0 - np.sum(rh.proj_to_klein(Q) ** 2, axis=-1))
+        kappa = float(max(np.max(kP[ordinary]), np.max(kQ[ordinary]), 1.0))
     case = {"dimension": n, "shape": list(shape), "point_class": pcls, "P": P, "Q": Q}
+    if has_special:
+        case["degenerate_units"] = np.argwhere(special).tolist()
     run.current_case = case
     p, q = H.Point(P.copy()), H.Point(Q.copy())
     sig = (n, shape, pcls)
@@ -408,9 +456,16 @@ def wl_points(run, rng, idx):
     def unit_pts(i):
         return H.Point(P[i].copy()), H.Point(Q[i].copy())
 
-    # coordinates
+    def degenerate(J, i):
+        if special[i]:
+            J.mon.skip("degenerate unit (exactly lightlike / coincident): only the "
+                       "ordinary units of the composite are judged")
+            return True
+        return False
+
+    # coordinates (all units: a lightlike unit is a point of the closure)
     for model in MODELS:
-        J = Judge(run, "per-index", "Point.coords(%s)" % model, sig, case)
+        J = Judge(run, "per-index", "Point.coords(%s)%s" % (model, optag), sig, case)
         c = arr(p.coords(model))
         if not J.shape(c.shape[:-1], shape):
             continue
@@ -419,19 +474,23 @@ def wl_points(run, rng, idx):
             J.num("coords", c[i], arr(pu.coords(model)), i)
         run.note_class("coords", model, *sig)
     # construction through model coordinates (setter path), per index
-    kl = rh.proj_to_klein(P)
-    for model, data in (("klein", kl), ("poincare", rh.klein_to_poincare(kl))):
-        J = Judge(run, "per-index", "Point(model=%s)" % model, sig, case)
-        comp = H.Point(data.copy(), model=model)
-        for i in np.ndindex(*shape):
-            J.dev("primary", rp.max_row_dev(comp.proj_data[i],
-                                            H.Point(data[i].copy(), model=model).proj_data), i)
+    if not has_special:
+        kl = rh.proj_to_klein(P)
+        for model, data in (("klein", kl), ("poincare", rh.klein_to_poincare(kl))):
+            J = Judge(run, "per-index", "Point(model=%s)%s" % (model, optag), sig, case)
+            comp = H.Point(data.copy(), model=model)
+            for i in np.ndindex(*shape):
+                J.dev("primary", rp.max_row_dev(comp.proj_data[i],
+                                                H.Point(data[i].copy(), model=model).proj_data), i)
     # distance
-    J = Judge(run, "per-index", "Point.distance", sig, case)
+    J = Judge(run, "per-index", "Point.distance" + optag, sig, case)
     d = arr(p.distance(q))
-    dref = np.asarray(rh.dist_proj(P, Q))
+    with np.errstate(all="ignore"):
+        dref = np.asarray(rh.dist_proj(P, Q))
     if J.shape(d.shape, shape):
         for i in np.ndindex(*shape):
+            if degenerate(J, i):
+                continue
             if dref[i] < 1e-3:
                 # arccosh(1+eps): one ulp in the product moves the result by
                 # eps/d (NaN below 1): C01's domain, not a vectorisation matter
@@ -442,19 +501,37 @@ def wl_points(run, rng, idx):
         run.note_class("distance", *sig)
     # origin_to
     for fo in (True, False):
-        J = Judge(run, "per-index", "Point.origin_to", sig, case)
+        J = Judge(run, "per-index", "Point.origin_to" + optag, sig, case)
         T = p.origin_to(force_oriented=fo)
         if not J.shape(T.shape, shape):
             continue
         for i in np.ndindex(*shape):
+            if degenerate(J, i):
+                continue
             pu, _ = unit_pts(i)
             Tu = pu.origin_to(force_oriented=fo)
             _isometry_per_index(run, J, T.proj_data[i], Tu.proj_data, i, P[i][None], free=(n >= 2),
                                 scale=kappa)
         run.note_class("origin_to", fo, *sig)
-    if n >= 2 and tangent_ok:
+    if n >= 2 and tangent_ok and not tangent_domain:
+        # tangent vectors at a degenerate base point are undefined: only the
+        # construction is compared, on the ordinary units
+        J = Judge(run, "per-index", "Point.unit_tangent_towards" + optag, sig, case)
+        tv = p.unit_tangent_towards(q)
+        if J.shape(tv.shape, shape):
+            for i in np.ndindex(*shape):
+                if degenerate(J, i):
+                    continue
+                pu, qu = unit_pts(i)
+                tu = pu.unit_tangent_towards(qu)
+                kt = TOL_PROJ * kappa
+                J.dev("primary", rp.tangent_dev(tv.proj_data[i], tu.proj_data), i, tol=kt)
+                J.dev("auxiliary", rp.tangent_dev(tv.aux_data[i], tu.aux_data,
+                                                  project=(False, False)), i, tol=kt)
+            run.note_class("tangent-construction", *sig)
+    elif n >= 2 and tangent_ok:
         # unit tangent, point_along, isometry_to, angle
-        J = Judge(run, "per-index", "Point.unit_tangent_towards", sig, case)
+        J = Judge(run, "per-index", "Point.unit_tangent_towards" + optag, sig, case)
         tv = p.unit_tangent_towards(q)
         R, _ = G.separated_pair(rng, n, shape, G.interior)
         tw = p.unit_tangent_towards(H.Point(R.copy()))
@@ -465,14 +542,16 @@ def wl_points(run, rng, idx):
         iso = tv.isometry_to(tw)
         tv_to = tv.origin_to()
         ang = arr(tv.angle(tw))
-        Jp = Judge(run, "per-index", "TangentVector.point_along", sig, case)
-        Ji = Judge(run, "per-index", "TangentVector.isometry_to", sig, case)
-        Jo = Judge(run, "per-index", "TangentVector.origin_to", sig, case)
-        Ja = Judge(run, "per-index", "TangentVector.angle", sig, case)
+        Jp = Judge(run, "per-index", "TangentVector.point_along" + optag, sig, case)
+        Ji = Judge(run, "per-index", "TangentVector.isometry_to" + optag, sig, case)
+        Jo = Judge(run, "per-index", "TangentVector.origin_to" + optag, sig, case)
+        Ja = Judge(run, "per-index", "TangentVector.angle" + optag, sig, case)
         if J.shape(tv.shape, shape) and Jp.shape(along_a.shape, shape) and \
                 Jp.shape(along_s.shape, shape) and Ji.shape(iso.shape, shape) and \
                 Ja.shape(ang.shape, shape):
             for i in np.ndindex(*shape):
+                if degenerate(J, i):
+                    continue
                 pu, qu = unit_pts(i)
                 tu = pu.unit_tangent_towards(qu)
                 wu = pu.unit_tangent_towards(H.Point(R[i].copy()))
@@ -498,7 +577,49 @@ def wl_points(run, rng, idx):
                     Ja.num("angle", ang[i], arr(tu.angle(wu)), i, tol=1e-6 * kappa)
             run.note_class("tangent", *sig)
     if idx < 2:
-        run.sample({"workload": "points", "dimension": n, "shape": list(shape), "P": P})
+        run.sample({"workload": "points" + optag, "dimension": n, "shape": list(shape), "P": P})
+
+
+# composites that contain a unit on which the vectorised routine takes a
+# special branch.  A whole-array decision (``if mask.all()``, one global
+# ``where``/``any`` test, a scalar fallback) makes one such unit change what the
+# *other* units get; alone, each of those gives the ordinary result.  (seeded
+# change C04-r3-3: utils.normalize skipped the division for the whole array as
+# soon as one vector was exactly lightlike.)
+SPECIAL_CLASSES = ("null-unit", "null-target", "exact-origin", "coincident-pair")
+SPECIAL_SHAPES = [(3,), (2, 3), (1, 3), (2, 1, 3)]
+
+
+def wl_special_units(run, rng, idx):
+    """every point operation on composites of ordinary points + 1..2 units that
+    are exactly lightlike / the exact origin / an exactly coincident pair."""
+    scls = pick(SPECIAL_CLASSES, idx)
+    shape = pick(SPECIAL_SHAPES, idx // len(SPECIAL_CLASSES))
+    n = 1 + (idx // 4 + idx // 16) % 4
+    P, Q = G.separated_pair(rng, n, shape, G.interior)
+    if (idx // 2) % 2:
+        # representatives of both signs: nothing may rely on the ordinary
+        # units being normalised or in the upper nappe already
+        P = P * rng.choice([-1.0, 1.0], size=shape + (1,))
+        Q = Q * rng.choice([-1.0, 1.0], size=shape + (1,))
+    mask = GX.special_positions(rng, shape)
+    special, tangent_domain = mask, True
+    for i in np.argwhere(mask):
+        i = tuple(int(x) for x in i)
+        if scls == "null-unit":
+            P[i] = GX.exact_null(rng, n)
+            tangent_domain = False
+        elif scls == "null-target":
+            Q[i] = GX.exact_null(rng, n)
+        elif scls == "exact-origin":
+            P[i] = GX.exact_origin(rng, n)
+            special = None          # an ordinary point: every unit is judged
+        else:
+            Q[i] = P[i] * float(rng.choice([-1.0, 1.0])) * 2.0 ** int(rng.integers(-1, 2))
+            tangent_domain = False
+    _points_case(run, rng, idx, n, shape, P, Q, scls, special=special,
+                 optag="{%s}" % scls, tangent_domain=tangent_domain)
+    run.note_class("special-units", scls, n, shape)
 
 
 def _isometry_per_index(run, J, Mc, Mu, i, frame, free, src=None, dst=None, scale=1.0):
@@ -735,15 +856,23 @@ def wl_structure(run, rng, idx):
     raw = G.draw(rng, kind, n, shape)
     case = {"kind": kind, "dimension": n, "shape": list(shape), "raw": raw}
     run.current_case = case
-    mon = run.monitor("structure")
     X = G.build(kind, raw)
+    _structure_checks(run, kind, shape, raw, X, case)
+    run.note_class("structure", kind, n, shape)
+
+
+def _structure_checks(run, kind, shape, raw, X, case, ktag=""):
+    """every structural operation on the composite X (built from `raw`) against
+    the units rebuilt from the slices of `raw`.  ktag: input-class suffix of
+    the mechanism keys ("" for the plain workload)."""
+    mon = run.monitor("structure")
     cls = type(X)
     auxk = G.KINDS[kind][3]
     units = [(i, G.build(kind, G.unit_raw(raw, i))) for i in np.ndindex(*shape)]
 
     def same(op, obj, unit, where):
         """obj (a unit-shaped piece of a structural result) is the unit."""
-        key = "structure/%s/unit-mismatch" % op
+        key = "structure/%s/unit-mismatch%s" % (op, ktag)
         if obj.shape != ():
             return mon.fail("structure/%s/shape" % op,
                             "%s: piece at %r has composite shape %r" % (op, where, obj.shape), case)
@@ -869,7 +998,177 @@ def wl_structure(run, rng, idx):
         for i, u in units:
             if not same("class-copy", piece(C, i), u, i):
                 break
-    run.note_class("structure", kind, n, shape)
+    return units, same, piece
+
+
+# ---------------------------------------------------------------------------
+# the same composite handed over in another memory layout
+
+# A composite is its *logical* array of units: NumPy arrays that compare equal
+# element by element are the same input whatever their strides.  The library
+# keeps the caller's layout (np.array(..., order='K') in ProjectiveObject.set),
+# so any order-sensitive reshape / ravel / view inside it (order='A'/'K'/'F',
+# .T tricks, .flat, frombuffer) sees a non-C array exactly for these inputs and
+# never for the arrays the library computes itself.  (seeded change C04-r3-1:
+# flatten_to_unit reshaped with order="A"; a Fortran-ordered (a, b) composite
+# came back with unit (i, j) at flat index i + a*j, and the derived data --
+# recomputed, hence C ordered -- flattened in a different order from the
+# primary data.)
+LAYOUT_SHAPES = [(2, 3), (3, 2), (2, 1, 3), (2, 2, 2), (4, 3), (3,), (1, 3)]
+
+
+def wl_layouts(run, rng, idx):
+    """construction, flatten / reshape / index / iterate / stack / combine and
+    apply on composites whose primary data (or raw constructor inputs) arrive
+    Fortran-ordered, as transposed or axis-permuted views, strided, reversed."""
+    layout = pick(GX.LAYOUTS, idx)
+    kind = pick(ALL_KINDS, idx // len(GX.LAYOUTS) + 5 * idx)
+    shape = pick(LAYOUT_SHAPES, idx // 2)
+    n = dims_for(kind, idx // 3)
+    raw = G.draw(rng, kind, n, shape)
+    prim = G.primary(kind, raw)
+    unit_rank = G.KINDS[kind][2]
+    # route: the primary array itself goes to the class / every raw constructor
+    # input goes through the kind's usual constructor
+    direct = prim is not None and (idx // len(GX.LAYOUTS)) % 2 == 0
+    case = {"kind": kind, "dimension": n, "shape": list(shape), "raw": raw,
+            "memory_layout": layout, "route": "primary-array" if direct else "raw-inputs"}
+    run.current_case = case
+    mon = run.monitor("structure")
+    ktag = "/memory-layout"
+    if direct:
+        X = G.class_of(kind)(GX.relayout(prim, layout, unit_rank))
+    else:
+        X = G.build(kind, {k: GX.relayout(v, layout, unit_rank if v.ndim - len(shape) > 1 else 1)
+                           for k, v in raw.items()})
+    if not mon.require(X.shape == shape, "structure/construct/shape" + ktag,
+                       "%s built from %s-layout data has shape %r, expected %r"
+                       % (kind, layout, X.shape, shape), case):
+        return
+    units, same, piece = _structure_checks(run, kind, shape, raw, X, case, ktag=ktag)
+    # the composite itself holds the units
+    for i, u in units:
+        if not same("construct", piece(X, i), u, i):
+            break
+    # apply (one transformation, and one per unit of the last axis), then flatten
+    hyp = G.KINDS[kind][1]
+    tkind = "H.Isometry" if hyp else "P.Transformation"
+    for tshape in ((), shape[-1:]):
+        traw = G.draw(rng, tkind, n, tshape)
+        T = G.build(tkind, traw)
+        Y = T.apply(X)
+        if not mon.require(Y.shape == shape, "structure/apply/shape" + ktag,
+                           "apply on a %s-layout composite has shape %r" % (layout, Y.shape), case):
+            continue
+        F = Y.flatten_to_unit()
+        for k, (i, u) in enumerate(units):
+            Tu = G.build(tkind, G.unit_raw(traw, i[-1:] if tshape else ()))
+            Yu = Tu.apply(u)
+            if not (same("apply", piece(Y, i), Yu, i) and
+                    same("apply+flatten_to_unit", piece(F, (k,)), Yu, i)):
+                break
+    run.note_class("layouts", kind, layout, len(shape), "direct" if direct else "raw")
+
+
+# ---------------------------------------------------------------------------
+# objects whose unit / auxiliary / dual rank is a setting of the instance
+
+# The named classes fix their ranks in the constructor, so a result that is
+# rebuilt as ``cls(data)`` gets them back by accident.  Generic objects
+# (ProjectiveObject / HyperbolicObject with unit_ndims, aux_ndims, dual_ndims;
+# PointCollection / PointPair with unit_ndims) carry the ranks per instance: the
+# result of apply must be a composite of the same kind of units.  (seeded
+# change C04-r3-2: apply rebuilt the result through the class constructor and
+# the unit rank fell back to the class default, so (5,) blocks came back as a
+# (5, 4) composite of rows.)
+GENERIC_NAMES = list(GX.GENERIC_CLASSES)
+GENERIC_RANKS = [(2, 0, 0), (3, 0, 0), (1, 0, 0), (2, 2, 0), (2, 3, 1), (1, 2, 2), (3, 1, 0)]
+
+
+def wl_generic_ranks(run, rng, idx):
+    """Transformation.apply in the three modes on generic objects with
+    per-instance ranks: class, ranks, shape, every entry by hand and against
+    the unit call; the result flattened."""
+    name = pick(GENERIC_NAMES, idx)
+    full = GX.GENERIC_CLASSES[name][2]
+    ranks = pick(GENERIC_RANKS if full else GENERIC_RANKS[:3], idx // len(GENERIC_NAMES))
+    mode = pick(rp.MODES, idx // 2 + idx // 12)
+    oshape = pick(G.OBJ_SHAPES, idx // 3 + idx // 5)
+    tshape = pick(G.TRF_SHAPES, idx // 7 + idx)
+    hyp = name.startswith("H.")
+    tkind = "H.Isometry" if (hyp or idx % 5 == 3) else "P.Transformation"
+    n = 1 + (idx // 4) % 3
+    mon = run.monitor("apply-modes")
+    try:
+        want_shape = rp.result_shape(oshape, tshape, mode)
+    except ValueError:
+        tshape = oshape[-1:] if oshape else ()
+        want_shape = rp.result_shape(oshape, tshape, mode)
+    u, a, d = ranks
+    data = {"proj": rng.normal(size=oshape + GX.generic_unit_shape(rng, u, n)),
+            "aux": rng.normal(size=oshape + GX.generic_unit_shape(rng, a, n)) if a else None,
+            "dual": rng.normal(size=oshape + GX.generic_unit_shape(rng, d, n)) if d else None}
+    traw = G.draw(rng, tkind, n, tshape)
+    case = {"class": name, "ranks(unit,aux,dual)": list(ranks), "dimension": n,
+            "object_shape": list(oshape), "transformation_shape": list(tshape),
+            "broadcast": mode, "data": data, "transformation": traw}
+    run.current_case = case
+    X = GX.build_generic(name, data, ranks)
+    T = G.build(tkind, traw)
+    if not mon.require(X.shape == oshape, "apply-modes/generic/construct-shape",
+                       "%s(unit_ndims=%d) of data %r has shape %r"
+                       % (name, u, data["proj"].shape, X.shape), case):
+        return
+    Y = T.apply(X, broadcast=mode)
+    key = "apply-modes/generic/%%s/%s" % mode
+    if not mon.require(type(Y) is type(X), key % "class",
+                       "apply(%s) of %s returns %s" % (mode, name, type(Y).__name__), case):
+        return
+    got_ranks = (Y.unit_ndims, Y.aux_ndims, Y.dual_ndims)
+    mon.require(tuple(int(r) for r in got_ranks) == tuple(ranks), key % "ranks",
+                "apply(%s): the result of a %s with (unit, aux, dual) ranks %r has ranks %r"
+                % (mode, name, ranks, got_ranks), case)
+    if not mon.require(tuple(Y.shape) == tuple(want_shape), key % "shape",
+                       "apply(%s): %s of shape %r (unit rank %d) x transformations %r gives "
+                       "shape %r, expected %r" % (mode, name, oshape, u, tshape, Y.shape, want_shape),
+                       case):
+        return
+    J = Judge(run, "apply-modes", "generic/apply[%s]" % mode, (name,), case)
+    M = G.row_matrix(tkind, traw)
+    parts = [("proj", "proj_data", u)] + ([("aux", "aux_data", a)] if a else []) + \
+        ([("dual", "dual_data", d)] if d else [])
+    F = Y.flatten_to_unit()
+    total = int(np.prod(want_shape, dtype=int))
+    if not mon.require(tuple(F.shape) == (total,) and type(F) is type(X),
+                       "apply-modes/generic/flatten_to_unit/shape",
+                       "flatten_to_unit of the applied %s gives %s of shape %r, expected (%d,)"
+                       % (name, type(F).__name__, F.shape, total), case):
+        F = None
+    for k, (ridx, oi, ti) in enumerate(rp.operand_indices(oshape, tshape, mode)):
+        Xu = GX.build_generic(name, {p: (None if v is None else v[oi]) for p, v in data.items()}, ranks)
+        Tu = G.build(tkind, G.unit_raw(traw, ti))
+        Yu = Tu.apply(Xu)
+        if not mon.require(tuple(Yu.shape) == (), key % "unit-shape",
+                           "apply on one unit of %s gives shape %r" % (name, Yu.shape), case):
+            return
+        for part, attr, rank in parts:
+            got = getattr(Y, attr)
+            if got is None:
+                mon.fail(key % ("%s-missing" % part), "the result has no %s" % attr, case)
+                return
+            J.num(part, got[ridx], getattr(Yu, attr), ridx, tol=1e-10)
+            if F is not None and getattr(F, attr) is not None:
+                J.num(part, getattr(F, attr)[k], getattr(Yu, attr), ridx, tol=1e-10,
+                      unitdesc="unit-after-flatten")
+        # by hand: the unit's rows times the row matrix of transformation j
+        hand = data["proj"][oi] @ M[ti]
+        scale = float(np.max(np.abs(hand))) + 1.0
+        J.dev("proj", float(np.max(np.abs(Y.proj_data[ridx] - hand))) / scale
+              if np.shape(Y.proj_data[ridx]) == hand.shape else np.inf, ridx,
+              tol=1e-10, unitdesc="x_i@M_j",
+              what="apply[%s] on %s: entry %r is not transformation %r applied to unit %r"
+              % (mode, name, ridx, ti, oi))
+    run.note_class("generic-ranks", name, ranks, len(oshape), len(tshape), mode, tkind)
 
 
 def _reshapes(shape):
@@ -891,4 +1190,7 @@ WORKLOADS = [
     Workload("fixed-and-sl2", wl_fixed_and_sl2, quick=40, thorough=800),
     Workload("intersect", wl_intersect, quick=64, thorough=640),
     Workload("structure", wl_structure, quick=230, thorough=3600),
+    Workload("layouts", wl_layouts, quick=84, thorough=1600),
+    Workload("generic-ranks", wl_generic_ranks, quick=120, thorough=2400),
+    Workload("special-units", wl_special_units, quick=48, thorough=960),
 ]
